@@ -115,6 +115,15 @@ def fam_d(rng, ident, dup):
     return scn.line("scn", ident, s, extra="nt=1 family=duplicate-replies-%d" % dup)
 
 
+def fam_stalled_close(rng, ident):
+    """Close while the writer is blocked inside the connection's Write (the peer has stopped draining)"""
+    s = ["stallw/on", scn.notify(1, nowait=True), "waitinwrite"]
+    if rng.chance(1, 2):
+        s.append(scn.call(2, nowait=True))
+    s += ["close", "await/n1", "settle", "sample/final"]
+    return scn.line("scn", ident, s, extra="nt=1 family=close-while-write-blocked")
+
+
 def explore(ctx):
     rng, tier = ctx["rng"], ctx["tier"]
     if ctx.get("replay"):
@@ -133,6 +142,8 @@ def explore(ctx):
             lines.append(fam_b(rng, "b%d" % n)); n += 1
         for _ in range({"quick": 60, "thorough": 1500, "search": 200}[tier]):
             lines.append(fam_c(rng, "c%d" % n)); n += 1
+        for _ in range({"quick": 4, "thorough": 30, "search": 8}[tier]):
+            lines.append(fam_stalled_close(rng, "w%d" % n)); n += 1
         for dup in (1, 2, 3):
             for _ in range(2):
                 lines.append(fam_d(rng, "d%d" % n, dup)); n += 1
